@@ -87,6 +87,23 @@ impl_ciph!(XChaCha8);
 impl_ciph!(XChaCha12);
 impl_ciph!(XChaCha20);
 
+/// ctor 0: NewCipher::new (GenericArray arguments); ctor 1: NewCipher::new_from_slices
+pub fn make_ctor(variant: &str, key: &[u8], nonce: &[u8], ctor: usize) -> Box<dyn Ciph> {
+    if ctor % 2 == 0 {
+        return make(variant, key, nonce);
+    }
+    match variant {
+        "ChaCha8" => Box::new(ChaCha8::new_from_slices(key, nonce).expect("lengths")),
+        "ChaCha12" => Box::new(ChaCha12::new_from_slices(key, nonce).expect("lengths")),
+        "ChaCha20" => Box::new(ChaCha20::new_from_slices(key, nonce).expect("lengths")),
+        "Ietf" => Box::new(Ietf::new_from_slices(key, nonce).expect("lengths")),
+        "XChaCha8" => Box::new(XChaCha8::new_from_slices(key, nonce).expect("lengths")),
+        "XChaCha12" => Box::new(XChaCha12::new_from_slices(key, nonce).expect("lengths")),
+        "XChaCha20" => Box::new(XChaCha20::new_from_slices(key, nonce).expect("lengths")),
+        _ => panic!("harness: variant {}", variant),
+    }
+}
+
 pub fn make(variant: &str, key: &[u8], nonce: &[u8]) -> Box<dyn Ciph> {
     let k = GenericArray::from_slice(key);
     match variant {
@@ -118,7 +135,8 @@ pub fn ks_event(out: &mut dyn std::io::Write, variant: &str, key: &[u8], nonce: 
     let mut buf = vec![0xa5u8; n + 2 * GUARD];
     buf[GUARD..GUARD + n].copy_from_slice(data);
     let r = guarded(|| {
-        let mut c = make(variant, key, nonce);
+        // alternate between the two public constructors (the result must not depend on which one built the cipher)
+        let mut c = make_ctor(variant, key, nonce, (key[0] ^ key[31] ^ nonce[0]) as usize);
         if pos != 0 {
             c.seek("u64", false, pos as u128).map_err(|_| "seek-err")?;
         }
@@ -316,7 +334,7 @@ fn internals_json(c: &dyn Ciph) -> String {
 
 impl Episode {
     pub fn start(out: &mut dyn std::io::Write, variant: &str, key: &[u8], nonce: &[u8], tag: &str, with_internals: bool) -> Episode {
-        let c = make(variant, key, nonce);
+        let c = make_ctor(variant, key, nonce, (key[1] ^ nonce[1]) as usize);
         let mut e = Ev::new(0, "new").s("variant", variant).s("tag", tag).bytes("key", key).bytes("nonce", nonce);
         if with_internals {
             e = e.raw("st", &internals_json(&*c));
